@@ -66,6 +66,12 @@ pub struct SeqCase {
     /// the ring through the buffer ids).
     #[serde(default)]
     pub pre_cycles: u8,
+    /// Before the pool of the case is created, a first `ReadBufPool::new` is
+    /// refused by the kernel (IORING_REGISTER_PBUF_RING fails with the k-th
+    /// of a few errnos): it must fail with that error and leave nothing
+    /// behind.
+    #[serde(default)]
+    pub new_refused: Option<u8>,
 }
 
 /// C08b: ReadBufs released concurrently from several threads while the kernel
@@ -489,8 +495,8 @@ impl Property for C08 {
     type Case = Case;
 
     fn strategy(_tier: Tier) -> BoxedStrategy<Case> {
-        let seq = (prop_oneof![4 => 0u8..=3, 1 => 4u8..=6], prop_oneof![1 => 1u16..8, 4 => 1u16..300, 1 => 4000u16..4096], proptest::collection::vec(pstep(), 0..80), prop_oneof![3 => Just(0u8), 1 => 0u8..=40]).prop_map(|(pool_log2, buf_size, steps, pre_cycles)| Case::Seq(SeqCase { pool_log2, buf_size, steps, big_shift: 0, pre_cycles }));
-        let big = (1u8..=3, 2048u16..=4096, 17u8..=19, proptest::collection::vec(pstep(), 0..60), 0u8..=12).prop_map(|(pool_log2, buf_size, big_shift, steps, pre_cycles)| Case::Seq(SeqCase { pool_log2, buf_size, steps, big_shift, pre_cycles }));
+        let seq = (prop_oneof![4 => 0u8..=3, 1 => 4u8..=6], prop_oneof![1 => 1u16..8, 4 => 1u16..300, 1 => 4000u16..4096], proptest::collection::vec(pstep(), 0..80), prop_oneof![3 => Just(0u8), 1 => 0u8..=40], proptest::option::weighted(0.15, 0u8..5)).prop_map(|(pool_log2, buf_size, steps, pre_cycles, new_refused)| Case::Seq(SeqCase { pool_log2, buf_size, steps, big_shift: 0, pre_cycles, new_refused }));
+        let big = (1u8..=3, 2048u16..=4096, 17u8..=19, proptest::collection::vec(pstep(), 0..60), 0u8..=12).prop_map(|(pool_log2, buf_size, big_shift, steps, pre_cycles)| Case::Seq(SeqCase { pool_log2, buf_size, steps, big_shift, pre_cycles, new_refused: None }));
         let sched = (0u8..=3, 1u16..64, 1u8..=8, 0u8..=9, proptest::collection::vec(1u8..=3, 1..=3), 0u8..=4, proptest::collection::vec(any::<u16>(), 0..80), crate::strat::maybe_pct(3, 80))
             .prop_map(|(pool_log2, buf_size, take, pre_cycles, releasers, kernel_selects, pool_tape, pct)| Case::Sched(PoolSched { pool_log2, buf_size, take, pre_cycles, releasers, kernel_selects, pool_tape, pct }));
         prop_oneof![9 => seq, 1 => big, 3 => sched].boxed()
@@ -514,7 +520,7 @@ impl Property for C08 {
             return;
         }
         let cycles = tier.pick(70_000u32, 200_000);
-        let case = SeqCase { pool_log2: if shard == 0 { 0 } else { 2 }, buf_size: 16, steps: vec![], big_shift: 0, pre_cycles: 0 };
+        let case = SeqCase { pool_log2: if shard == 0 { 0 } else { 2 }, buf_size: 16, steps: vec![], big_shift: 0, pre_cycles: 0, new_refused: None };
         let mut ctx = Ctx::new("C08", known, tier);
         run_case(&case, &mut ctx, cycles);
         out.evaluations += 1;
@@ -555,6 +561,43 @@ fn run_case(case: &SeqCase, ctx: &mut Ctx, long_cycles: u32) {
     let big_shift = case.big_shift.min(19);
     let pool_size: u16 = 1 << case.pool_log2.min(if big_shift > 0 { 3 } else { 6 });
     let buf_size = (case.buf_size.clamp(1, 4096) as usize) << big_shift;
+    if let Some(k) = case.new_refused {
+        let errno = [libc::ENOMEM, libc::EINVAL, libc::EEXIST, libc::EFAULT, libc::EBUSY][k as usize % 5];
+        let mark = track::mark();
+        sim::sim().cfg.register_fail = Some((abi::REGISTER_PBUF_RING, errno));
+        let r = {
+            let _s = track::scope(track::TAG_A10);
+            catch(|| ReadBufPool::new(world.sq(), pool_size, buf_size.min(4096) as u32))
+        };
+        sim::sim().cfg.register_fail = None;
+        match r {
+            Err((msg, loc)) => {
+                ctx.violation("C08:panic:pool-new-refused", format!("ReadBufPool::new panicked at {loc} when the kernel refused the registration: {msg}"));
+                return;
+            }
+            Ok(Ok(p)) => {
+                ctx.violation("C08:pool-built-despite-refusal", format!("ReadBufPool::new returned a pool although IORING_REGISTER_PBUF_RING failed with errno {errno}"));
+                std::mem::forget(p);
+                return;
+            }
+            Ok(Err(e)) if e.raw_os_error() != Some(errno) => {
+                ctx.violation("C08:pool-new-wrong-error", format!("ReadBufPool::new failed with {e:?} although IORING_REGISTER_PBUF_RING failed with errno {errno}"));
+                return;
+            }
+            Ok(Err(_)) => {}
+        }
+        let left = track::live_since(mark);
+        if !left.is_empty() {
+            ctx.violation("C08:refused-pool-leaked", format!("a refused ReadBufPool::new left {} allocations behind: {:?}", left.len(), left.iter().take(3).map(|b| (b.addr, b.size)).collect::<Vec<_>>()));
+            track::forget_since(mark);
+            return;
+        }
+        if sim::sim().the_ring().pbufs.len() != 0 {
+            ctx.violation("C08:refused-pool-registered", "a refused ReadBufPool::new left a buffer group registered".to_string());
+            return;
+        }
+        ctx.class("pool-new-refused");
+    }
     let pool = {
         let _s = track::scope(track::TAG_A10);
         ReadBufPool::new(world.sq(), pool_size, buf_size as u32)
